@@ -273,6 +273,31 @@ func (w *clockWorld) opNow(s *Stream) {
 	w.pool = append(w.pool, t)
 }
 
+// numForm writes the integer v the way formulas do: mostly plainly, sometimes with an exponent,
+// as an exact quotient, with a ".0", or with a fraction that truncation toward zero removes.
+func numForm(s *Stream, v int64) string {
+	plain := strconv.FormatInt(v, 10)
+	switch s.Intn(12) {
+	case 0:
+		if v != 0 && v%10 == 0 {
+			e := 0
+			for v%10 == 0 {
+				v /= 10
+				e++
+			}
+			return strconv.FormatInt(v, 10) + "e" + strconv.Itoa(e)
+		}
+	case 1:
+		k := int64(2 + s.Intn(9))
+		return "(" + strconv.FormatInt(v*k, 10) + " / " + strconv.FormatInt(k, 10) + ")"
+	case 2:
+		return plain + ".0"
+	case 3:
+		return plain + "." + strconv.Itoa(1+s.Intn(9))
+	}
+	return plain
+}
+
 func (w *clockWorld) opDate(s *Stream) {
 	y := int64(1 + s.Intn(9999))
 	if s.Intn(3) == 0 { // some years are asked for again and again
@@ -290,7 +315,7 @@ func (w *clockWorld) opDate(s *Stream) {
 		y, m, d = f.Y, f.M, f.D+int64(s.Intn(3))-1
 		w.rc.probe("date_aimed_at_a_zone_transition")
 	}
-	text := "date(" + strconv.FormatInt(y, 10) + ", " + strconv.FormatInt(m, 10) + ", " + strconv.FormatInt(d, 10) + ")"
+	text := "date(" + numForm(s, y) + ", " + numForm(s, m) + ", " + numForm(s, d) + ")"
 	w.ops = append(w.ops, text)
 	v, err, pan := w.eval("$t = " + text)
 	t, ok := asTime(v)
@@ -366,7 +391,7 @@ func (w *clockWorld) opAddDate(s *Stream) {
 		}
 	}
 	w.r.SetThisValue("t0", t)
-	text := "addDate(t0, " + strconv.FormatInt(dy, 10) + ", " + strconv.FormatInt(dm, 10) + ", " + strconv.FormatInt(dd, 10) + ")"
+	text := "addDate(t0, " + numForm(s, dy) + ", " + numForm(s, dm) + ", " + numForm(s, dd) + ")"
 	w.ops = append(w.ops, text+" on "+t.Format(time.RFC3339Nano)+" "+t.Location().String())
 	v, err, pan := w.eval(text)
 	r, ok := asTime(v)
@@ -395,6 +420,9 @@ func (w *clockWorld) opAddDate(s *Stream) {
 	w.pool = append(w.pool, r)
 }
 
+// hostText: text as hosts often type it
+type hostText string
+
 func (w *clockWorld) opUseTZ(s *Stream) {
 	t := w.pick(s)
 	var name string
@@ -406,6 +434,14 @@ func (w *clockWorld) opUseTZ(s *Stream) {
 	loc, lerr := time.LoadLocation(name) // the truth under the same simulated zone database
 	w.r.SetThisValue("t0", t)
 	text := "useTimezone(t0, '" + name + "')"
+	switch s.Intn(10) {
+	case 0: // the name comes from the data, as a string
+		w.r.SetThisValue("zn", name)
+		text = "useTimezone(t0, zn)"
+	case 1: // ... or as a value of a named string type
+		w.r.SetThisValue("zn", hostText(name))
+		text = "useTimezone(t0, zn)"
+	}
 	if lerr != nil && s.Intn(3) == 0 {
 		text = "useTimezone(now(), '" + name + "')" // an evaluation that reads the clock and then fails
 	}
@@ -470,6 +506,14 @@ func (w *clockWorld) opFormat(s *Stream) {
 	}
 	w.r.SetThisValue("t0", t)
 	text := "timeFormat(t0, '" + layout + "')"
+	switch s.Intn(10) {
+	case 0:
+		w.r.SetThisValue("lay", layout)
+		text = "timeFormat(t0, lay)"
+	case 1:
+		w.r.SetThisValue("lay", hostText(layout))
+		text = "timeFormat(t0, lay)"
+	}
 	w.ops = append(w.ops, text+" on "+t.Format(time.RFC3339Nano)+" "+t.Location().String())
 	v, err, pan := w.eval(text)
 	got, isStr := v.(string)
